@@ -37,7 +37,7 @@ struct Check {
   long long comparisons = 0;
 
   void bad(const std::string& cls, const std::string& detail) {
-    std::string full = "C08:" + cls + g_cls_suffix;
+    std::string full = with_suffix("C08:" + cls, g_cls_suffix);
     cnt(MISMATCHES)++;
     if (class_should_print(full)) vf::mismatch(full, cfg + " " + detail);
   }
@@ -90,41 +90,60 @@ struct Check {
               std::to_string(prev_count) + " cycles at the update before the last operation)");
       return;
     }
-    // cells of each cycle: documented as row indices, i.e. cell IDs
+    // cells of each cycle: documented as row indices, i.e. cell IDs.  A list is turned into a chain by position;
+    // interpretation 0 reads the entries as IDs, interpretation 1 as positions (only tried when IDs fail and differ).
+    std::set<int> births;
+    for (auto& q : bars) births.insert(q.birth);
+    std::string why_k;
+    auto build = [&](bool as_pos, std::vector<Vec>& chains, bool& dup, std::string& why) {
+      chains.clear();
+      dup = false;
+      std::set<int> lows;
+      for (size_t k = 0; k < cycles.size(); ++k) {
+        Vec v(n, 0);
+        for (auto x : cycles[k]) {
+          int pos = as_pos ? ((int)x < n ? (int)x : -1) : md.pos_of_id(x);
+          if (pos < 0) { why = ":cycle_lists_unknown_cells"; why_k = vf::join(cycles[k]); return false; }
+          if (v[pos]) dup = true;
+          v[pos] = O::is_z2 ? (v[pos] ^ 1) : 1;  // a cell listed twice cancels over Z_2
+        }
+        int l = low_of(v);
+        if (l < 0 || !lows.insert(l).second) { why = ":youngest_cells_not_distinct"; why_k = vf::join(cycles[k]); return false; }
+        chains.push_back(v);
+      }
+      if (lows != births) { why = ":youngest_cells_are_not_the_birth_cells"; why_k = ""; return false; }
+      return true;
+    };
     std::vector<Vec> chains;
-    for (size_t k = 0; k < cycles.size(); ++k) {
-      Vec v(n, 0);
-      bool ok = true, dup = false;
-      for (auto id : cycles[k]) {
-        int pos = md.pos_of_id(id);
-        if (pos < 0) { ok = false; break; }
-        if (v[pos]) dup = true;
-        v[pos] = 1;
-      }
-      ++comparisons;
-      if (!ok || dup) {
-        // would the list make sense as positions?
-        bool aspos = true;
-        for (auto id : cycles[k]) if ((int)id >= n) aspos = false;
-        std::string lst = vf::join(cycles[k]);
-        if (!ok) bad(fl + (aspos ? ":cycle_lists_positions_instead_of_ids" : ":cycle_lists_unknown_cells"),
-                     "cycle {" + lst + "} with current ids {" + vf::join(md.ids) + "}");
-        else bad(fl + ":cycle_lists_a_cell_twice", "cycle {" + lst + "}");
+    bool dup = false;
+    std::string why;
+    ++comparisons;
+    if (!build(false, chains, dup, why)) {
+      bool ids_are_positions = true;
+      for (int i = 0; i < n; ++i) if (md.ids[i] != (unsigned)i) ids_are_positions = false;
+      std::string why2;
+      std::string first_k = why_k;
+      if (!ids_are_positions && build(true, chains, dup, why2)) {
+        bad(fl + ":cycle_lists_positions_instead_of_ids",
+            "the cycles only make sense as lists of positions, e.g. {" + vf::join(cycles.back()) + "} with current ids {" +
+                vf::join(md.ids) + "}");
+        // continue with the position reading so that other properties are still examined
+      } else {
+        bad(fl + why, "cycle {" + first_k + "} with current ids {" + vf::join(md.ids) + "}, births of the bars {" + vf::join(births) + "}");
         return;
       }
-      chains.push_back(v);
     }
-    // attach each cycle to the bar born at its youngest cell
+    if (dup) {
+      ++comparisons;
+      size_t k = 0;
+      for (; k < cycles.size(); ++k) {
+        std::set<unsigned> u(cycles[k].begin(), cycles[k].end());
+        if (u.size() != cycles[k].size()) break;
+      }
+      bad(fl + ":cycle_lists_a_cell_twice", "cycle {" + vf::join(cycles[std::min(k, cycles.size() - 1)]) + "}");
+    }
     std::map<int, int> by_birth;
-    for (size_t k = 0; k < chains.size(); ++k) {
-      int l = low_of(chains[k]);
-      ++comparisons;
-      if (l < 0 || by_birth.count(l)) {
-        bad(fl + ":youngest_cells_not_distinct", "cycle {" + vf::join(cycles[k]) + "} is empty or shares its youngest cell with another cycle");
-        return;
-      }
-      by_birth[l] = (int)k;
-    }
+    for (size_t k = 0; k < chains.size(); ++k) by_birth[low_of(chains[k])] = (int)k;
     std::vector<Vec> rep(n);  // representative by birth position
     for (auto& q : bars) {
       auto it = by_birth.find(q.birth);
@@ -262,7 +281,7 @@ struct Tag { using type = T; };
 template <class F, class... Os>
 void for_each_config(List<Os...>, F&& f) { (f(Tag<Os>{}), ...); }
 
-struct PlanItem { std::string u; int max_ins, max_rem; };
+struct PlanItem { std::string u; int max_ins, max_rem; std::vector<int> primes; bool empty_remove = false; };
 
 int main(int argc, char** argv) {
   vf::Args a = vf::parse_args(argc, argv);
@@ -299,7 +318,7 @@ int main(int argc, char** argv) {
       run_isolated(
           1, [&](size_t) { c.run_case(U, p, idm, ctor, ops); return true; },
           [&](size_t) { return case_string(c.cfg, U, p, idm, ctor, ops); },
-          [&](const std::string& ph, const std::string& kind) { return "C08:" + c.crash_class(ph, kind) + suffix; }, EV_TRACES);
+          [&](const std::string& ph, const std::string& kind) { return with_suffix("C08:" + c.crash_class(ph, kind), suffix); }, EV_TRACES);
     });
     if (!found) fprintf(stderr, "configuration %s is not in this unit\n", kv["cfg"].c_str());
     finish();
@@ -308,30 +327,35 @@ int main(int argc, char** argv) {
 
   std::vector<PlanItem> plan;
   {
-    std::string s = a.get("plan", thorough ? "tet:8:2,tri:7:3,square:9:2,strip:7:1,cw:7:2" : "tet:7:1,square:7:1,cw:7:1"), cur;
+    std::string s = a.get("plan", thorough ? "tet:8:1:2+3,tet:7:2:2+3+5,tri:7:3:2+3,square:9:1:2+3,strip:7:1:2+3,cw:7:2:2+3+5"
+                                      : "tet:7:1:2,tet:6:1:3,square:6:1:2+3,cw:6:1:2+3+5"), cur;
     for (char ch : s + ",") {
       if (ch != ',') { cur += ch; continue; }
       if (cur.empty()) continue;
       PlanItem it;
-      size_t c1 = cur.find(':'), c2 = cur.find(':', c1 + 1);
+      size_t c1 = cur.find(':'), c2 = cur.find(':', c1 + 1), c3 = cur.find(':', c2 + 1);
       it.u = cur.substr(0, c1);
       it.max_ins = atoi(cur.substr(c1 + 1, c2 - c1 - 1).c_str());
-      it.max_rem = atoi(cur.substr(c2 + 1).c_str());
+      it.max_rem = atoi(cur.substr(c2 + 1, c3 == std::string::npos ? std::string::npos : c3 - c2 - 1).c_str());
+      if (c3 != std::string::npos) {  // optional: primes of this item, then ":e" = also remove_last on an empty matrix
+        size_t c4 = cur.find(':', c3 + 1);
+        it.primes = vf::parse_ints(cur.substr(c3 + 1, c4 == std::string::npos ? std::string::npos : c4 - c3 - 1), '+');
+        it.empty_remove = c4 != std::string::npos && cur.substr(c4 + 1) == "e";
+      }
       plan.push_back(it);
       cur.clear();
     }
   }
-  bool empty_remove = a.geti("emptyrem", 0) != 0;
   std::vector<int> primes = vf::parse_ints(a.get("primes", thorough ? "2,3,5" : "2,3"));
-  std::vector<int> modes = vf::parse_ints(a.get("modes", thorough ? "00,11,20,31" : "00,11,20"));
+  std::vector<int> modes = vf::parse_ints(a.get("modes", thorough ? "00,11,20,31,41" : "00,11,20,41"));
 
   for (auto& item : plan) {
     Universe U = make_universe(item.u);
     HistoryBounds hb;
     hb.max_ins = item.max_ins;
     hb.max_rem = item.max_rem;
-    hb.empty_remove = empty_remove;
-    for (int p : primes) {
+    hb.empty_remove = item.empty_remove;
+    for (int p : item.primes.empty() ? primes : item.primes) {
       long long raw = 0;
       auto H = enumerate_histories(U, hb, p, &raw);
       vf::stats().add("histories_enumerated_raw", raw);
@@ -354,6 +378,7 @@ int main(int argc, char** argv) {
             if (idm == 0 && info[i].insert_after_remove) continue;  // ambiguous default identifiers, see C05
             sel.push_back(i);
           }
+          std::stable_partition(sel.begin(), sel.end(), [&](size_t i) { return !info[i].empty_remove; });
           size_t left = run_isolated(
               sel.size(),
               [&](size_t k) {
@@ -363,8 +388,8 @@ int main(int argc, char** argv) {
               },
               [&](size_t k) { return case_string(c.cfg, U, p, idm, ctor, H[sel[k]]); },
               [&](const std::string& ph, const std::string& kind) {
-                return "C08:" + c.crash_class(ph, kind) +
-                       (info[sel[g_sh->cur]].empty_remove ? ":history_with_remove_last_on_empty_matrix" : "");
+                return with_suffix("C08:" + c.crash_class(ph, kind),
+                                   info[sel[g_sh->cur]].empty_remove ? ":history_with_remove_last_on_empty_matrix" : "");
               },
               EV_TRACES);
           if (left) {
